@@ -142,7 +142,46 @@ func (f *Frame) call(st *State, x *ssa.Call, c *ssa.CallCommon, pos token.Pos) {
 		vc.inlined[fnDisplayName(callee)] = true
 	}
 	res := f.inline(st, callee, args, bindings, pos)
+	if spec := vc.eng.specs.funcSpec(callee); spec != nil && spec.Shadow {
+		f.shadowFact(st, callee, args, res)
+	}
 	setResult(packResults(resultType, res))
+}
+
+// shadowFact relates the shadow function of a state-independent callee to the
+// value its inlined body computed at these arguments.
+func (f *Frame) shadowFact(st *State, callee *ssa.Function, args []Val, res []Val) {
+	if !stateIndependent(callee) || len(res) != 1 || len(res[0].L) != 1 {
+		f.unsupported("shadow function %s is not a state-independent function with one scalar result", fnDisplayName(callee))
+		return
+	}
+	for _, a := range args {
+		if len(a.L) != 1 {
+			f.unsupported("shadow function %s has a non-scalar argument", fnDisplayName(callee))
+			return
+		}
+	}
+	u := ufResult(f, fmt.Sprintf("pure|%s|%d", fnDisplayName(callee), 0), args, res[0].T)
+	f.vc.fact(Imp(st.reach, Eq(u.one(), res[0].one())))
+}
+
+// stateIndependent: the body reads and writes no memory and calls nothing
+// (switch / arithmetic / constants only).
+func stateIndependent(fn *ssa.Function) bool {
+	for _, b := range fn.Blocks {
+		for _, in := range b.Instrs {
+			switch x := in.(type) {
+			case *ssa.Store, *ssa.MapUpdate, *ssa.Alloc, *ssa.MakeMap, *ssa.MakeSlice, *ssa.MakeChan, *ssa.Go, *ssa.Defer, *ssa.Send, *ssa.Lookup, *ssa.Index, *ssa.IndexAddr, *ssa.FieldAddr, *ssa.Range, *ssa.Next, *ssa.Call:
+				_ = x
+				return false
+			case *ssa.UnOp:
+				if x.Op == token.MUL || x.Op == token.ARROW {
+					return false
+				}
+			}
+		}
+	}
+	return true
 }
 
 func packResults(t types.Type, res []Val) Val {
